@@ -22,13 +22,13 @@ T = {
          'translator + correspondence, Earley and reference-interpreter oracles'),
  'C05': ('translation validation + reference interpreter building the derivation tree with node operators; theorems pending',
          'translator + correspondence, reference interpreter'),
- 'C06': ('translation validation + Earley viable-prefix oracle; theorems pending',
+ 'C06': ('Coq theorem: diagnostics strictly increasing and in bounds for every program without assertions/ordered choice (certificate per translated parser), every input; first-error position by K3 correspondence + Earley viable-prefix oracle',
          'translator + correspondence, viable-prefix oracle'),
  'C07': ('translation validation (program and analysis) + definitional precedence-consistency oracle; theorems pending',
          'translator + K2/K3 correspondence, precedence oracle'),
- 'C08': ('translation validation + callback balance and value-semantics reference interpreter; theorems pending',
+ 'C08': ('Coq theorems: an abandoned alternative restores position, token, diagnostics, error state and the abstract tree state exactly, for every program/input/oracle/fuel; callback balance and value semantics by K3 correspondence + reference interpreter',
          'translator + correspondence, reference interpreter'),
- 'C09': ('Coq model of LL1Validator (Sema.v) tied by K2 to the real SemanticData; textbook sets on an independent BNF as reference; theorems pending',
+ 'C09': ('Coq theorem: first sets of the transcribed calc_first are exactly the derivation-defined sets (soundness unconditional, completeness from a closure certificate evaluated per grammar); follow/predict by K2 correspondence + textbook oracle on an independent BNF',
          'Rocq model + K2 correspondence, textbook oracle'),
  'C10': ('Coq model of LL1Validator::check tied by K2; verdicts from the definition with textbook sets; theorems pending',
          'Rocq model + K2 correspondence, definitional oracle'),
